@@ -585,6 +585,9 @@ def check(run, project):
     for node, st, cls in lg.F.raises:
         run.ob("X1", cls in DOCUMENTED, f"pump raise at L{node.lineno}: {cls}", f"the pump raises undocumented {cls}", module=lg.roles.mod,
                node=node.ast, func=lg.roles.pump.name, construct=f"pump raise {cls}")
+    # the encrypted-layout classmethod is only ever called on parameter areas (a dataclass *field* of that name is None)
+    from .c01 import encrypted_guard
+    encrypted_guard(run, lg.roles, lg.L, "X1")
     x2(run, lg)
     run.floor("X1", 70, "failure sites")
     run.floor("X2", 20)
